@@ -204,4 +204,9 @@ example :
         [((), 2), ((), 3), ((), 1)] [none, some (some 5), some none]).flatten = gridEnum c.base := by
   decide
 
+/-- the permutation hypothesis of `c13_shuffled_grid_same_points` is satisfiable by a genuine
+reordering (parameters reversed) -/
+example (gv : GridValues Nat) : ShuffleOf gv gv.reverse :=
+  ⟨gv, List.forall₂_same.mpr (fun _ _ => ⟨rfl, List.Perm.refl _⟩), List.reverse_perm gv⟩
+
 end VizierModel.C13
